@@ -4,14 +4,14 @@ from harness.oracles import all as ALL
 
 ID = 'C04'
 UNITS = ['match_events', 'event_metrics', 'note_matching', 'transcription_scores', 'melody_metrics', 'multipitch_metrics', 'multipitch_resample', 'key_score', 'pattern_scores', 'alignment_scores', 'tempo_detection', 'beat_q', 'beat_ig']
-TRANSLATORS = ['defaults', 'tables']
+TRANSLATORS = ['defaults', 'tables', 'scalarfuncs']
 NOT_COVERED = 'Partial: Goto and continuity are their own (procedural) definitions, tied by correspondence only; the Gaussian of Cemgil and the entropy of information gain are outside the exact model; default values are tied by the translator (defaults_as_documented).'
 ASSUMPTIONS = ['exact-arithmetic lattices for the correspondence (DESIGN.md section 2.1); NumPy/SciPy primitives as modelled per module']
 
 oracle_search = propgen.budgeted([ALL.for_property(ID)])
 
 
-oracle_at = propgen.definitional_oracle_at(['match_events', 'event_metrics', 'note_matching', 'transcription_scores', 'melody_metrics', 'multipitch_metrics', 'multipitch_resample', 'key_score', 'pattern_scores', 'alignment_scores', 'tempo_detection', 'beat_q', 'beat_ig'], 'equals the value prescribed by the published definition')
+oracle_at = propgen.chained(propgen.point_oracle(ID), propgen.definitional_oracle_at(['match_events', 'event_metrics', 'note_matching', 'transcription_scores', 'melody_metrics', 'multipitch_metrics', 'multipitch_resample', 'key_score', 'pattern_scores', 'alignment_scores', 'tempo_detection', 'beat_q', 'beat_ig'], 'equals the value prescribed by the published definition'))
 
 
 def diagnose(b):
